@@ -53,7 +53,7 @@ func runC19(c *core.Ctx) {
 	lc := core.NewLockCache()
 	el := newEntryLocks(c, lc)
 
-	c.Doc("C19.pairing", "Lock/Unlock and RLock/RUnlock balanced in matching mode on every path (bus/session, bus.client)", 8)
+	c.Doc("C19.pairing", "Lock/Unlock and RLock/RUnlock balanced in matching mode on every path (bus/session, bus.client)", 4)
 	lockPairing(c, lc, "C19.pairing", sessionScopeFuncs(c))
 
 	c.Doc("C19.guarded-by", "shared session/client state only touched under its mutex, writes exclusively", 12)
